@@ -93,9 +93,166 @@ def _see_through_copies(F, rw, N):
     return False
 
 
+def _split_chain(F, rw, N):
+    """loop fusion by `chain`:  for x in a.chain(b) { body }   ==   for x in a { body }  for x in b { body }
+    The loop (its natural-loop blocks) is duplicated, locals that live only inside it are renamed in the copy, the first
+    loop runs over `a` and falls through to the second one over `b`.  Afterwards sa.normalize can splice the closure
+    adaptors (`.map(f)`, `.filter_map(g)`) of each part into its loop."""
+    import copy as _copy
+    tmp = Body(rw.d)
+    loops = tmp.loops()
+    for bi in sorted(tmp.live):
+        t = rw.blocks[bi]['term']
+        if t['k'] != 'call' or (t.get('ri') or {}).get('item') != 'next' or not ((t.get('ri') or {}).get('trait') or '').endswith('Iterator') or t.get('chain_split'): continue
+        cands = [(h, bl) for h, bl in loops.items() if bi in bl]
+        if not cands or not t['args'] or t['args'][0]['k'] not in ('copy', 'move'): continue
+        header, L = min(cands, key=lambda x: len(x[1]))
+        # the iterator variable: follow `&mut` borrows from the argument of next() to a local defined outside the loop
+        cur = t['args'][0]['pl']['l']
+        for _ in range(6):
+            d = rw.single_def(cur)
+            if d is None or d[0] != 'stmt' or d[1] not in L: break
+            rv = d[2]['rv']
+            if rv['k'] == 'ref' and rv['pl']['p'] in ([], ['*']): cur = rv['pl']['l']; continue
+            if rv['k'] == 'use' and rv['ops'][0]['k'] in ('copy', 'move') and not rv['ops'][0]['pl']['p']: cur = rv['ops'][0]['pl']['l']; continue
+            break
+        it = cur
+        # ... which is (into_iter of) a chain(a, b)
+        x = it; ch = None; into_iters = []
+        for _ in range(8):
+            d = rw.single_def(x)
+            if d is None: break
+            if d[0] == 'stmt':
+                rv = d[2]['rv']
+                if rv['k'] == 'use' and rv['ops'][0]['k'] in ('copy', 'move') and not rv['ops'][0]['pl']['p']: x = rv['ops'][0]['pl']['l']; continue
+                if rv['k'] == 'ref' and rv['pl']['p'] in ([], ['*']): x = rv['pl']['l']; continue
+                break
+            ri = d[2].get('ri') or {}
+            if ri.get('item') == 'into_iter' and d[2]['args'] and d[2]['args'][0]['k'] in ('copy', 'move') and not d[2]['args'][0]['pl']['p']:
+                into_iters.append(d); x = d[2]['args'][0]['pl']['l']; continue
+            if ri.get('item') == 'chain' and (ri.get('trait') or '').endswith('Iterator') and len(d[2]['args']) == 2 and d[1] not in L: ch = d
+            break
+        t['chain_split'] = True
+        if ch is None: continue
+        cbi, ct = ch[1], ch[2]
+        if ct['t'] < 0 or ct['dst']['p'] or any(a['k'] not in ('copy', 'move') for a in ct['args']): continue
+        # the switch on the Option returned by next(): its None target is where the first loop hands over
+        sw = t['t']
+        if sw < 0 or rw.blocks[sw]['term']['k'] != 'switch': continue
+        swt = rw.blocks[sw]['term']
+        none_t = dict((v, tb) for v, tb in swt['ts']).get(0)
+        if none_t is None or none_t in L: continue
+        # error / early exits of the loop body read locals of the body (`?` moves the Break payload out): they are copied
+        # with the loop as long as they are a small loop-free tail; the regular exit (None arm) is not followed
+        L0 = set(L)
+        E = set(); work_ = []
+        for u in L0:
+            for v in tmp.succ(u):
+                if v not in L0 and not (u == sw and v == none_t) and not rw.blocks[v]['cleanup']: work_.append(v)
+        while work_:
+            v = work_.pop()
+            if v in E or v in L0: continue
+            E.add(v)
+            for w in tmp.succ(v):
+                if not rw.blocks[w]['cleanup']: work_.append(w)
+        copy_exits = len(E) <= 40 and none_t not in E and not any(rw.blocks[v]['term']['k'] == 'call' and (rw.blocks[v]['term'].get('ri') or {}).get('item') == 'next' for v in E)
+        if copy_exits: L = L0 | E
+        # The COPY becomes the first loop (over `a`); the original blocks stay the second loop (over `b`) and keep
+        # their names, because the code after the loop may read locals of the last iteration.
+        defs_in = {}; defs_out = set(); used_out = set()
+        def defs_of_block(blk):
+            out = set()
+            for st in blk['st']:
+                if 'dst' in st and '*' not in st['dst']['p']: out.add(st['dst']['l'])
+            if blk['term']['k'] == 'call': out.add(blk['term']['dst']['l'])
+            return out
+        def uses_of_block(blk):
+            out = set()
+            for st in blk['st']:
+                if 'dst' not in st: continue
+                out.add(st['dst']['l']); rv = st['rv']
+                for o in rv.get('ops', []):
+                    if o['k'] in ('copy', 'move'): out.add(o['pl']['l'])
+                if 'pl' in rv: out.add(rv['pl']['l'])
+            tt = blk['term']
+            if tt['k'] == 'call':
+                out.add(tt['dst']['l'])
+                for a in tt['args']:
+                    if a['k'] in ('copy', 'move'): out.add(a['pl']['l'])
+            elif tt['k'] == 'switch' and tt['d']['k'] != 'const': out.add(tt['d']['pl']['l'])
+            elif tt['k'] == 'drop' and 'pl' in tt: out.add(tt['pl']['l'])
+            return out
+        din = set()
+        for i2, blk in enumerate(rw.blocks):
+            if i2 in L: din |= defs_of_block(blk)
+            else: defs_out |= defs_of_block(blk); used_out |= uses_of_block(blk)
+        # rename what is defined only inside the region; without copied exits also keep what the shared exit blocks read
+        ren = {l: None for l in din if l not in defs_out and l > rw.d['argc'] and l != it and (copy_exits or l not in used_out)}
+        for l in ren: ren[l] = rw.new_local(rw.locals[l])
+        it2 = rw.new_local(rw.locals[it]); a2 = rw.new_local(rw.locals[ct['dst']['l']])
+        ren[it] = it2
+        bmap = {}
+        base = len(rw.blocks)
+        for k_, i2 in enumerate(sorted(L)): bmap[i2] = base + k_
+        def mp(pl):
+            q = []
+            for p_ in pl['p']:
+                if isinstance(p_, dict) and 'ix' in p_ and p_['ix'] in ren: p_ = dict(p_, ix=ren[p_['ix']])
+                q.append(p_)
+            return {'l': ren.get(pl['l'], pl['l']), 'p': q}
+        def mo(o): return {'k': o['k'], 'pl': mp(o['pl'])} if o['k'] in ('copy', 'move') else o
+        for i2 in sorted(L):
+            blk = _copy.deepcopy(rw.blocks[i2])
+            for st in blk['st']:
+                if 'dst' not in st: continue
+                st['dst'] = mp(st['dst']); rv = st['rv']
+                if 'ops' in rv: rv['ops'] = [mo(o) for o in rv['ops']]
+                if 'pl' in rv: rv['pl'] = mp(rv['pl'])
+            tt = blk['term']; k = tt['k']
+            if k == 'call':
+                tt['args'] = [mo(a) for a in tt['args']]; tt['dst'] = mp(tt['dst'])
+                if tt['t'] in bmap: tt['t'] = bmap[tt['t']]
+                tt.pop('desugared', None); tt.pop('chain_split', None)
+                if (tt.get('ri') or {}).get('item') == 'next': tt.pop('synthetic', None)
+            elif k == 'switch':
+                tt['d'] = mo(tt['d']); tt['ts'] = [[v, bmap.get(tb, tb)] for v, tb in tt['ts']]; tt['else'] = bmap.get(tt['else'], tt['else'])
+            elif k in ('goto', 'drop', 'assert'):
+                tt['t'] = bmap.get(tt['t'], tt['t'])
+                if 'pl' in tt: tt['pl'] = mp(tt['pl'])
+                if 'cond' in tt and isinstance(tt['cond'], dict): tt['cond'] = mo(tt['cond'])
+            rw.blocks.append(blk)
+        line = (t.get('span') or {}).get('lo', 0)
+        # the copy's None arm hands over to the original header
+        csw = rw.blocks[bmap[sw]]['term']
+        csw['ts'] = [[v, (header if v == 0 else tb)] for v, tb in csw['ts']]
+        # entry: edges into the original header from outside the loop go to the copy
+        pre1 = rw.new_block([_use(it2, _mv(a2), line)], {'k': 'goto', 't': bmap[header]})
+        for i2, blk in enumerate(rw.blocks[:base]):
+            if i2 in L0: continue
+            tt = blk['term']; k = tt['k']
+            if k in ('goto', 'drop', 'assert', 'call') and tt.get('t') == header: tt['t'] = pre1
+            elif k == 'switch':
+                tt['ts'] = [[v, (pre1 if tb == header else tb)] for v, tb in tt['ts']]
+                if tt['else'] == header: tt['else'] = pre1
+        # chain(a, b): `a` feeds the first loop, the original iterator variable continues as `b`
+        rw.blocks[cbi]['st'].append(_use(a2, ct['args'][0], line))
+        rw.blocks[cbi]['st'].append(_use(ct['dst'], ct['args'][1], line))
+        rw.goto(cbi, ct['t'])
+        for d in into_iters:          # into_iter() of an iterator is the identity
+            if d[1] not in L and d[2]['t'] >= 0 and not d[2]['dst']['p']:
+                rw.blocks[d[1]]['st'].append(_use(d[2]['dst'], d[2]['args'][0], line)); rw.goto(d[1], d[2]['t'])
+        t.pop('desugared', None); t.pop('chain_split', None); t.pop('synthetic', None)
+        rw.changed = True
+        for _ in range(20):
+            if not N._desugar_one(rw): break
+        return True
+    return False
+
+
 def _lnorm_one(F, rw, N):
     ENV = _const('()', 'env')
     if _see_through_copies(F, rw, N): return True
+    if _split_chain(F, rw, N): return True
     for bi, blk in enumerate(rw.blocks):
         if blk['cleanup']: continue
         t = blk['term']
@@ -266,7 +423,7 @@ def _kill(e, l):
     for k in [k for k in e if k[0] == l]: del e[k]
 
 
-def _step_block(body, bi, e, untracked):
+def _step_block(body, bi, e, untracked, assume=None):
     """transfer of block bi on env e (mutated); returns successors to follow"""
     blk = body.blocks[bi]
     for st in blk['st']:
@@ -301,6 +458,9 @@ def _step_block(body, bi, e, untracked):
         elif k == 'discr':
             sk = pkey(rv['pl'])
             if sk in e: e[dk] = e[sk]
+            elif assume is not None:
+                v = assume(rv['pl'])
+                if v is not None: e[dk] = v
         elif k == 'agg':
             v = _variant_of_adt(rv['adt'])
             if v is not None: e[dk] = v
@@ -344,10 +504,11 @@ def _step_block(body, bi, e, untracked):
     return succs
 
 
-def walk(body, starts, stop=(), env0=None, avoid=()):
+def walk(body, starts, stop=(), env0=None, avoid=(), assume=None):
     """blocks reachable from `starts` along paths consistent with what is known about enum / bool
     locals (env0: {(local, tuple_fields): variant}).  `stop` blocks end a path (not included),
-    `avoid` blocks are not entered.
+    `avoid` blocks are not entered.  `assume(place) -> variant | None` fixes the discriminant read from a place the
+    walker does not track (e.g. "self.function is the Quadratic variant").
     Returns (blocks, reached_stop)."""
     untracked = T._mut_borrowed(body)
     seen = set(); out = set(); hit = False
@@ -363,7 +524,7 @@ def walk(body, starts, stop=(), env0=None, avoid=()):
             r = body.reach(list(starts), set(stop) | set(avoid))
             return r, True
         e = dict(fe)
-        succs = _step_block(body, bi, e, untracked)
+        succs = _step_block(body, bi, e, untracked, assume)
         fe2 = frozenset(e.items())
         for s in succs:
             if body.blocks[s]['cleanup']: continue
@@ -550,7 +711,7 @@ VEC_PUSH = re.compile(r'Vec::<(u64|T)>::push$')
 def pushed_labels(body, vec_local, _depth=0):
     out = set()
     for c in body.calls:
-        if c.item == 'push' and VEC_PUSH.search(c.name) and T.access_path(body, c.args[0], transparent=T.TRANSPARENT_NOCLONE)[1] == vec_local:
+        if c.item == 'push' and VEC_PUSH.search(c.name) and root_of(body, c.args[0]) == vec_local:
             out.add(label(body, T.expr(body, c.args[1]), _depth))
     return out
 
@@ -565,8 +726,46 @@ def outer_field(e):
     return None
 
 
+ROOT_TRANSPARENT = T.TRANSPARENT_NOCLONE
+
+
 def root_of(body, operand):
+    """the local a reference / moved value originates from: follows references, plain moves, components of freshly
+    built tuples (`let (a, b) = f_inlined(..)`), transparent calls (not clone); a value made by any other call is
+    rooted at that call's destination.  Multi-definition locals and parameters are their own roots."""
+    if operand['k'] not in ('copy', 'move'): return None
+    e = T.expr(body, operand, depth=24)
+    for _ in range(24):
+        if e[0] == 'call' and e[3] and ROOT_TRANSPARENT.search(T.strip_generics_tail(e[2])): e = e[3][0]; continue
+        if e[0] == 'proj' and all(T.WRAPPER_OWNER.search(a) for a, f in e[2]): e = e[1]; continue
+        break
+    if e[0] == 'call' and len(e) > 4:
+        for c in body.calls:
+            if c.bb == e[4]: return c.dst['l'] if not c.dst['p'] else None
+    if e[0] == 'local': return e[1]
+    if e[0] == 'place': return e[1]
+    if e[0] == 'proj':
+        x = e[1]
+        while x[0] == 'proj': x = x[1]
+        if x[0] == 'call' and len(x) > 4:
+            for c in body.calls:
+                if c.bb == x[4]: return c.dst['l'] if not c.dst['p'] else None
+        if x[0] in ('local', 'place'): return x[1]
     return T.access_path(body, operand, transparent=T.TRANSPARENT_NOCLONE)[1]
+
+
+def acc_class(body, local, _seen=None):
+    """an accumulator may continue in another local: `let (m, mut c) = helper(..)` (inlined: c = tuple.1 = helper's c),
+    `let mut c = c0;`.  Returns the locals that hold the running value, following initialisations that are plain moves
+    of another multi-definition f64 local."""
+    seen = _seen if _seen is not None else set()
+    if local in seen: return seen
+    seen.add(local)
+    init, ups = acc_defs(body, local)
+    for x, bi in init:
+        x = T.strip_wrappers(x)
+        if x[0] == 'local' and x[1] > body.argc and 'f64' in body.locals[x[1]]: acc_class(body, x[1], seen)
+    return seen
 
 
 def case_region(body, start, assignment, probes, stop, avoid=()):
@@ -1094,6 +1293,7 @@ def flows_from(body, local):
             elif kind == 'call':
                 nm = x.name
                 if T.TRY_BRANCH.search(nm) or T.TRANSPARENT.search(T.strip_generics_tail(nm)) or SAME_VARIANT.search(nm) or ERR_ADAPTORS.search(nm) \
+                        or ITER_TRANSPARENT.search(T.strip_generics_tail(nm)) or (x.item == 'next' and (x.trait or '').endswith('Iterator')) \
                         or re.search(r'::(unwrap_or_default|unwrap_or|unwrap_or_else|transpose)(::<.*>)?$', nm):
                     if x.arg_local(0) == l: nxt = x.dst['l']
                 elif MERGE_CALL.search(nm) and len(x.args) >= 2 and x.arg_local(0) != l:
@@ -1244,3 +1444,118 @@ def no_early_exit(ctx, rule, body, lo):
     ex = early_exits(body, set(lo[4]), for_loop_switch(body, lo), lo[1])
     ctx.check(not ex, rule, 'T-LOOPMUST', body.name, 'the loop can be left early (bb%s) on the way to an Ok-exit: remaining elements are skipped' % ', bb'.join(str(u) for u, v in ex), body.site(lo[0].bb))
     return not ex
+
+
+def rooted_in_self_field(ctx, body, e, adt, field):
+    """expression `e` reads self.<field> (directly, or through a parameter of an inlined helper that was given
+    `self.<field>.as_ref()`)"""
+    if (adt, field) in T.expr_fields(e): return True
+    for x in T.expr_walk(e):
+        if x[0] in ('place', 'local') and x[1] > body.argc:
+            if from_self_field(ctx, body, {'k': 'copy', 'pl': {'l': x[1], 'p': []}}, adt, field): return True
+    return False
+
+
+def no_bypass(ctx, rule, body, header, what, empty_of=None):
+    """no success exit bypasses the loop at `header` — except, when `empty_of` = (adt, field) is given, through the true side
+    of an emptiness test of self.<field> (`if self.terms.is_empty() { return Ok(..) }` skips nothing)"""
+    via = {header}
+    if empty_of is not None:
+        for c in body.calls:
+            if c.item == 'is_empty' and c.args and _self_vec(body, c.args[0], (empty_of[1],), empty_of[0]):
+                for g in T.guards_from_call(body, c):
+                    if g.true_bb is not None: via.add(g.true_bb)
+    ok = before_every_ok(body, via)
+    ctx.check(ok, rule, 'T-MUSTCALL', body.name, 'an Ok-exit is reachable without running %s' % what, body.site())
+    return ok
+
+
+# ------------------------------------------------------------------------------- complete copies of a map
+COPY_CALLS = re.compile(r'::(clone|to_owned|into|from|collect|from_iter|into_iter|iter|borrow|as_ref|deref|unwrap_or_default)(::<.*>)?$')
+ENTRY_ADTS = ('v1::State', 'v1::Parameters')
+
+
+def same_entries(ctx, body, operand, param, depth=0):
+    """The value of `operand` carries *all* entries of parameter `param` (a State / Parameters message or its `entries`
+    map) and nothing else: moves, clone(), From / Into between State and Parameters (crate conversions are checked to
+    carry `entries` themselves), `State { entries: x.entries }`, `x.entries.into_iter().collect()`, or a map filled by an
+    unconditional insert in an unrestricted loop over such a value.  Any filter / retain / remove in between fails."""
+    if depth > 6 or operand['k'] not in ('copy', 'move'): return False
+    return _same_entries_expr(ctx, body, T.expr(body, operand, depth=24), param, depth)
+
+
+def _mutated_besides_fill(body, local, fills=()):
+    for c in body.calls:
+        if c in fills or not c.args or not T.MUT_CALL.search(c.name): continue
+        a = c.args[0]
+        if a['k'] in ('copy', 'move') and '&mut' in body.locals[a['pl']['l']] and root_of(body, a) == local: return True
+    return False
+
+
+def _same_entries_expr(ctx, body, e, param, depth):
+    for _ in range(30):
+        if e[0] == 'proj':
+            if all(T.WRAPPER_OWNER.search(a) or (a.endswith(ENTRY_ADTS) and f == 'entries') for a, f in e[2]): e = e[1]; continue
+            return False
+        if e[0] == 'place':
+            if not all(a.endswith(ENTRY_ADTS) and f == 'entries' for a, f in e[2]): return False
+            if e[1] == param: return not _mutated_besides_fill(body, param)      # also through locals it was moved to
+            return False if e[1] <= body.argc else _same_entries_local(ctx, body, e[1], param, depth)
+        if e[0] == 'local':
+            return _same_entries_local(ctx, body, e[1], param, depth)
+        if e[0] == 'agg':
+            if e[1].endswith(ENTRY_ADTS) and len(e[2]) == 1: e = e[2][0]; continue
+            if e[1].endswith('Option::Some') and len(e[2]) == 1: e = e[2][0]; continue
+            return False
+        if e[0] == 'call':
+            nm = T.strip_generics_tail(e[2])
+            call = next((c for c in body.calls if len(e) > 4 and c.bb == e[4]), None)
+            if call is not None and not call.dst['p'] and _mutated_besides_fill(body, call.dst['l']): return False
+            cb = ctx.F.bodies.get(call.path) if call is not None else None
+            if cb is None and call is not None and e[1] == 'into' and len(call.gargs) >= 2:
+                cb = ctx.F.one(call.gargs[1], 'from', 'From', targs=[call.gargs[0]])
+            if cb is not None and cb.kind == 'fn' and e[1] in ('from', 'into') and len(e[3]) == 1:
+                # crate conversion: its result's `entries` must be its argument's entries
+                cb = lnorm(ctx, cb)
+                src, anchor = struct_field_sources(ctx, cb, next((a for a in ENTRY_ADTS if (cb.locals[0] or '').endswith(a)), 'v1::State'))
+                if src is None or not src.get('entries') or not all(same_entries(ctx, cb, o, 1, depth + 1) for o in src['entries']): return False
+                e = e[3][0]; continue
+            if COPY_CALLS.search(nm) and e[3] and (cb is None): e = e[3][0]; continue
+            if e[1] == 'new' and call is not None: return _same_entries_local(ctx, body, call.dst['l'], param, depth)
+            return False
+        return False
+    return False
+
+
+def _same_entries_local(ctx, body, local, param, depth):
+    """a local map: defined once by a complete copy and not shrunk, or filled from a complete copy by a loop"""
+    defs = [d for d in body.defs_of(local) if not (d[0] == 'stmt' and d[2]['dst']['p'])]
+    if len(defs) != 1: return False
+    k, bi, d = defs[0]
+    ins = [c for c in body.calls if c.item == 'insert' and re.search(r'(HashMap|BTreeMap)::<.*>::insert$', c.name) and c.args and root_of(body, c.args[0]) == local]
+    if _mutated_besides_fill(body, local, ins): return False
+    if k == 'call' and (d.get('ri') or {}).get('item') == 'new':
+        if not ins: return False
+        for c in ins:
+            los = [lo for lo in T.for_loops(body) if c.bb in lo[4]]
+            if not los: return False
+            lo = min(los, key=lambda l: len(l[4]))
+            restr = [x for x in ctx.S.slice_operand(body, lo[0].args[0]).call_objs if x.item in RESTRICTING and 'Iterator' in (x.trait or '')]
+            if restr or not T.must_pass(body, lo[2], {lo[1]}, {c.bb}) or early_exits(body, set(lo[4]), for_loop_switch(body, lo), lo[1]): return False
+            src = coll_source(body, lo[0].args[0])
+            if src is None or not _same_entries_expr(ctx, body, src, param, depth + 1): return False
+            if not all(lo[0].dst['l'] in ctx.S.slice_operand(body, a).locals for a in c.args[1:]): return False
+        return True
+    if ins: return False
+    if k == 'stmt':
+        return _same_entries_expr(ctx, body, T._rv_expr(body, d['rv']), param, depth + 1)
+    return False
+
+
+def coll_source(body, operand):
+    """expression of the collection an iterator operand runs over (iter / into_iter / &mut stripped)"""
+    e = T.expr(body, operand, depth=24)
+    for _ in range(12):
+        if e[0] == 'call' and e[3] and ITER_TRANSPARENT.search(T.strip_generics_tail(e[2])): e = e[3][0]; continue
+        break
+    return e
